@@ -878,6 +878,12 @@ impl StreamsState {
         self.ensure_remote_streams(dir);
     }
 
+    /// Whether the application changed stream or data limits after the transport parameters were
+    /// fixed, i.e. whether flow control frames announcing that may have been sent
+    pub(crate) fn flow_control_adjusted(&self) -> bool {
+        self.flow_control_adjusted
+    }
+
     pub(crate) fn max_concurrent(&self, dir: Dir) -> u64 {
         self.allocated_remote_count[dir as usize]
     }
@@ -889,6 +895,7 @@ impl StreamsState {
     /// Set the receive_window and returns whether the receive_window has been
     /// expanded or shrunk: true if expanded, false if shrunk.
     pub(crate) fn set_receive_window(&mut self, receive_window: VarInt) -> bool {
+        self.flow_control_adjusted = true;
         let receive_window = receive_window.into();
         let mut expanded = false;
         if receive_window > self.receive_window {
